@@ -974,6 +974,9 @@ def _valid_square_expr(p, g, e, depth):
         a = _valid_square_expr(p, g, kids(e)[1], depth + 1)
         b = _valid_square_expr(p, g, kids(e)[2], depth + 1)
         return a[0] and b[0], 'both arms'
+    if _from_new_code(p, g, e) or p.is_new_function(g):
+        raise AnalysisBroken('C10: a square is computed by `%s` in %s, code the reference tree did not have and no rule classifies'
+                             % (s0[:80], short(g.name)))
     return False, 'unrecognised square expression %s' % s0[:40]
 
 
